@@ -277,7 +277,7 @@ func drawC12(rt *rapid.T) interface{} {
 	maxOps := 14 / nt // concurrent histories are kept short: porcupine has to search the orders of overlapping adds,
 	// which only the final drain reveals (26 operations with 12 overlapping adds already cost seconds)
 	if nt == 1 {
-		maxOps = 40
+		maxOps = hx.Pick(40, 100)
 	}
 	next := 1
 	for i := 0; i < nt; i++ {
@@ -446,6 +446,7 @@ func TestC12(t *testing.T) {
 		Stubs: []string{"sync (simsync)", "goroutine scheduling (simrt baton scheduler)"},
 		Rule: "scenario = queue kind x capacity x 1-4 client programs over add/prior-add/ctrl-add/pop/pop-anyway/try-pop/close/try-close/try-clear/len (1 client: up to 40 ops = sequential statement) x scheduler knobs/tape; " +
 			"history checked with porcupine against a list / two-list / priority-list model, then drained through the draining API; non-trivial = >=2 tasks and >=1 context switch (or >=3 ops sequentially); distinct = distinct event-log hash",
+		Probes:      []string{"porcupine-ok", "release-close", "sleep"},
 		Assumptions: []string{"blocking Pop may linearize only when an item is available or the queue is closed", "try-close/try-clear also report true when already closed/cleared (the code's behaviour; the statement is silent)"},
 	})
 }
